@@ -14,6 +14,7 @@ use crate::trace::*;
 
 thread_local! {
 	static LAST_PANIC: RefCell<Option<String>> = const { RefCell::new(None) };
+	static GUARD_DEPTH: std::cell::Cell<u32> = const { std::cell::Cell::new(0) };
 }
 
 /// Marker payload of an unwind injected by the simulator (never a library panic).
@@ -37,6 +38,10 @@ pub fn install_quiet_panic_hook() {
 				format!("{}:{}", f, l.line())
 			})
 			.unwrap_or_default();
+		if GUARD_DEPTH.with(|d| d.get()) == 0 {
+			// not inside a guarded library call: a bug of the harness itself
+			eprintln!("irefsim: harness panic: {} @ {:?}", msg, info.location());
+		}
 		LAST_PANIC.with(|p| *p.borrow_mut() = Some(format!("{} @ {}", msg, loc)));
 	}));
 }
@@ -48,7 +53,10 @@ pub enum Caught<T> {
 }
 
 pub fn guarded<T>(f: impl FnOnce() -> T) -> Caught<T> {
-	match catch_unwind(AssertUnwindSafe(f)) {
+	GUARD_DEPTH.with(|d| d.set(d.get() + 1));
+	let r = catch_unwind(AssertUnwindSafe(f));
+	GUARD_DEPTH.with(|d| d.set(d.get() - 1));
+	match r {
 		Ok(v) => Caught::Ok(v),
 		Err(p) => {
 			if p.is::<Injected>() {
